@@ -194,6 +194,19 @@ def discharge(F, site):
                 if strip(lo) == strip(idx) and strip(hi) == ('len', r):
                     return 'D1', 'index < len() of the same container established by a dominating guard'
         return None
+    if n.endswith(('Vec::<T, A>::split_off', 'Vec::<T, A>::drain')) and len(args) == 2:
+        # at = X.len() - k (the subtraction is its own, separately discharged, site): at <= X.len()
+        recv, at = psc.unref(args[0]), args[1]
+        if n.endswith('::drain'):
+            at = strip(at)
+            if at[0] == 'agg' and str(at[1]).endswith('RangeFrom') and at[3]:
+                at = at[3][0]
+            else:
+                return None
+        at = strip(at)
+        if at[0] == 'binop' and at[1] == 'Sub' and strip(at[2]) == ('len', recv):
+            return 'D2', 'the cut position is len() - k of the same vector, hence within it'
+        return None
     if n.endswith('::unwrap') or n.endswith('::expect'):
         v = strip(args[0])
         # unwrap of x dominated by is_some(x) / is_ok(x)
@@ -336,13 +349,59 @@ def _stable_after(p, frm, pos, cont, env):
     return True
 
 
+def _yielded_index(I, env):
+    """container X when I is an index the standard library yields for X: the counter of `X.iter().enumerate()` or the
+    result of `X.iter().position(..)` / `rposition(..)`; such an index is below X.len()"""
+    v = I
+    while isinstance(v, tuple) and v and v[0] == 'cast':
+        v = v[1]
+    src = None
+    # Some((i, _)) payload of Enumerate::next
+    if v[0] == 'field' and v[2] == '0' and v[1][0] == 'field' and v[1][2] == '0' and v[1][1][0] == 'downcast' and v[1][1][2] == 'Some':
+        c = v[1][1][1]
+        if c[0] == 'call' and c[1].endswith(('Iterator>::next', 'Iterator::next')) and c[2]:
+            it = c[2][0]
+            it = env.get(it[1], it) if it[0] == 'ref' else it
+            for _ in range(4):
+                if it[0] == 'call' and it[1].endswith('IntoIterator>::into_iter') and it[2]:
+                    it = it[2][0]
+            if it[0] == 'call' and it[1].endswith('::enumerate') and it[2]:
+                src = it[2][0]
+    # Some(i) payload of position / rposition
+    if v[0] == 'field' and v[2] == '0' and v[1][0] == 'downcast' and v[1][2] == 'Some':
+        c = v[1][1]
+        if c[0] == 'call' and c[1].endswith(('::position', '::rposition')) and c[2]:
+            src = c[2][0]
+            src = env.get(src[1], src) if src[0] == 'ref' else src
+    if src is None:
+        return None
+    for _ in range(4):
+        if src[0] == 'call' and src[1].endswith(('::rev', 'IntoIterator>::into_iter')) and src[2]:
+            src = src[2][0]
+    if src[0] == 'call' and src[1].endswith(('::iter', '::iter_mut')) and src[2]:
+        return _container(src[2][0], env)
+    return None
+
+
+def _stable_from_value(p, I, pos, cont, env):
+    """the container is not changed between the call that produced I and the site"""
+    blk = None
+    for v in subtrees(I):
+        if v[0] == 'call' and v[1].endswith(('Iterator>::next', 'Iterator::next', '::position', '::rposition')):
+            blk = v[3]
+    if blk is None:
+        return False
+    frm = max((p.callpos[k] for k, cl in enumerate(p.calls) if cl[0] == blk), default=None)
+    return frm is not None and _stable_after(p, frm, pos, cont, env)
+
+
 def path_discharge(F, site):
     fn = site['f']
     t = site['term']
     b = site['block']
     n = site['what']
     kind = None
-    if site['kind'] == 'call' and psc.is_index_call(n) and len(t['args']) == 2:
+    if site['kind'] == 'call' and (psc.is_index_call(n) or n.endswith(('Vec::<T, A>::swap_remove', 'Vec::<T, A>::remove'))) and len(t['args']) == 2:
         kind = 'index'
     elif site['kind'] == 'call' and n.endswith('Option::<T>::unwrap'):
         kind = 'nth'
@@ -384,7 +443,7 @@ def path_discharge(F, site):
                 want = _count_of(c[3], env)
                 if want is None:
                     return None
-            if not _lt_established(p, pos, I, want, env):
+            if not _lt_established(p, pos, I, want, env) and not (want[1] == 'len' and _yielded_index(I, env) == want[2] and _stable_from_value(p, I, pos, want[2], env)):
                 return None
     if not reached:
         return None
@@ -680,11 +739,20 @@ def d3_table(ctx):
         fn = site['f']
         s_ = str(sym(fn, site['term']['cond']))
         from rules import vmx
-        call = vmx.vmx(ctx)['arms'].get('Call')
-        if not call or site['block'] not in call['region'] or 'stack' not in s_ or "'Sub'" not in s_ or 'as_function' in s_:
+        arms = vmx.vmx(ctx)['arms']
+        arm = next((nm for nm, a in arms.items() if site['block'] in a['region']), None)
+        c_ = sym(fn, site['term']['cond'])
+        lhs = strip(c_[2]) if c_[0] == 'overflowflag' and c_[1] == 'Sub' else None
+        while lhs is not None and lhs[0] == 'binop' and lhs[1] == 'Sub':
+            lhs = strip(lhs[2])          # (len - 1) - argc
+        is_stack_len = lhs is not None and lhs[0] == 'len' and "'stack'" in str(lhs)
+        if arm is None or not is_stack_len or 'as_function' in s_:
             return False, 'not covered'
+        s_arm, probs = vmx.summarize(arms[arm])
+        if probs:
+            return False, 'the stack effect of OpCode::%s cannot be read (%s)' % (arm, probs[0][:60])
         ok, why = _csa_ok(ctx, ('O1', 'O2', 'O3', 'O8', 'O1-underflow'))
-        return ok, why or 'at a Call instruction argc + 1 operands are on the stack (CSA: arguments and callee are pushed before it, O1/O8)'
+        return ok, why or 'at OpCode::%s the operands it removes are on the stack (CSA: they are pushed before it, O1/O8)' % arm
 
     def int_encoder(ctx, site):
         from framework import Report
